@@ -20,6 +20,9 @@ import (
 	"unicode/utf8"
 
 	"ariga.io/atlas/sql/migrate"
+	"ariga.io/atlas/sql/mysql"
+	"ariga.io/atlas/sql/postgres"
+	"ariga.io/atlas/sql/sqlite"
 	"verifharness/internal/hx"
 )
 
@@ -76,9 +79,18 @@ func scanImpl(o lexOpts, set, src string) (out lexOut) {
 		}()
 		var st []*migrate.Stmt
 		var err error
-		if set == "stmts" {
+		// the consumers' own entry points (the option set of a driver is whatever its ScanStmts uses: the
+		// model is handed the set this harness believes it to be)
+		switch set {
+		case "stmts":
 			st, err = migrate.Stmts(src)
-		} else {
+		case "mysql":
+			st, err = (&mysql.Driver{}).ScanStmts(src)
+		case "postgres":
+			st, err = (&postgres.Driver{}).ScanStmts(src)
+		case "sqlite":
+			st, err = (&sqlite.Driver{}).ScanStmts(src)
+		default:
 			st, err = (&migrate.Scanner{ScannerOptions: o.toGo()}).Scan(src)
 		}
 		if err != nil {
@@ -225,6 +237,8 @@ var lexTokens = []string{
 	"DELIMITER //\n", "DELIMITER §\n", "delimiter é\n", "DELIMITER 語\n", "§", "§\n", "é", "語", "DELIMITER ;\n", "delimiter $$\n", "DELIMITER '\n", "DELIMITER ';'\n", "DELIMITER 'a''b'\n", "DELIMITER \n", "DELIMITER", "DELIMITERx", "DELIMITER \\n\n", "//", "//\n", "$$\n",
 	"é", "\u00a0", "\u2028", "\xff", "\xc3", "\xe2\x80", "\r\n", "\r", "\v", "\f", "\x00",
 	"-- atlas:delimiter \\n\\n\n", "-- atlas:nolint\n", "-- atlas:delimiter\n", "\n\n",
+	// psql meta-command lines as pg_dump writes them
+	"\\connect db\n", "\\restrict k\n\n", "\\unrestrict k\n", "\\.\n",
 }
 
 func genLex(r *hx.Rand) string {
